@@ -87,6 +87,11 @@ func storeMain(args []string) error {
 		go func(dir string) {
 			defer wg.Done()
 			for j := range jobs {
+				if pf := os.Getenv("VERIF_PROGRESS"); pf != "" {
+					// (with one worker: the behaviour under way, for the caller to find after a fatal error of the runtime -- a stack
+					// overflow, a concurrent map write -- which no recover() sees)
+					_ = os.WriteFile(pf, []byte(fmt.Sprint(j.idx)), 0600)
+				}
 				r, p := runOne(dir, &cfg, j.idx, j.b.Steps)
 				mu.Lock()
 				rep.Behaviours++
